@@ -202,28 +202,37 @@ Definition put_edel (t : edel) (l : list edel) : list edel :=
 Definition room_mark (r : option N) (e : N) (d : Z) : list lkey :=
   match r with Some x => [(x, e, day d)] | None => [] end.
 
-(* one NodeToInsert: Node::filter_existing, Node::write, NodeToInsert::update_daily_logs *)
+(* SELECT id, max(mdate) FROM _node_deletion_log WHERE id in (..) GROUP BY id  (any room, any entity) *)
+Definition max_tombstone (s : state) (id : N) : option Z :=
+  fold_left (fun a d => if N.eqb (nd_id d) id then omax a (nd_mdate d) else a) (ndels s) None.
+
+(* one NodeToInsert: Node::filter_existing (a version that a stored deletion record covers is not
+   requested; an older or equal stored version wins), Node::write, NodeToInsert::update_daily_logs
+   (the day of the previous version is always marked) *)
 Definition ingest1 (room : N) (acc : state * list lkey) (sn : snode) : state * list lkey :=
   let '(s, ms) := acc in
   let n' := {| n_id := sn_id sn; n_room := Some room; n_ent := sn_ent sn; n_mdate := sn_mdate sn; n_sig := sn_sig sn |} in
+  if match max_tombstone s (sn_id sn) with Some m => sn_mdate sn <=? m | None => false end then (s, ms) else
   match find_node_id s (sn_id sn) with
   | Some old =>
       if (sn_mdate sn <? n_mdate old) || ((sn_mdate sn =? n_mdate old) && N.leb (sn_sig sn) (n_sig old))
       then (s, ms)
       else (set_tables s (replace_first (fun n => N.eqb (n_id n) (sn_id sn)) n' (nodes s)) (ndels s) (edels s) (edges s),
-            ms ++ (match n_room old with
-                   | Some ro => if N.eqb ro room then [] else [(ro, sn_ent sn, day (n_mdate old))]
-                   | None => [] end) ++ [(room, sn_ent sn, day (sn_mdate sn))])
+            ms ++ room_mark (n_room old) (sn_ent sn) (n_mdate old) ++ [(room, sn_ent sn, day (sn_mdate sn))])
   | None => (set_tables s (nodes s ++ [n']) (ndels s) (edels s) (edges s),
              ms ++ [(room, sn_ent sn, day (sn_mdate sn))])
   end.
 
-(* NodeDeletionEntry::delete_all *)
+(* NodeDeletionEntry::with_previous_authors drops an entry that names another entity than a stored
+   node of that id; NodeDeletionEntry::delete_all removes the version it names or an older one,
+   marks the day of every version it removes, the deletion day and the named day *)
 Definition sdel_node1 (acc : state * list lkey) (t : ndel) : state * list lkey :=
   let '(s, ms) := acc in
-  (set_tables s (filter (fun n => negb (opt_is (n_room n) (nd_room t) && N.eqb (n_id n) (nd_id t))) (nodes s))
-              (put_ndel t (ndels s)) (edels s) (edges s),
-   ms ++ [(nd_room t, nd_ent t, day (nd_date t)); (nd_room t, nd_ent t, day (nd_mdate t))]).
+  if existsb (fun n => N.eqb (n_id n) (nd_id t) && negb (N.eqb (n_ent n) (nd_ent t))) (nodes s) then (s, ms) else
+  let hit := fun n => opt_is (n_room n) (nd_room t) && N.eqb (n_id n) (nd_id t) && (n_mdate n <=? nd_mdate t) in
+  (set_tables s (filter (fun n => negb (hit n)) (nodes s)) (put_ndel t (ndels s)) (edels s) (edges s),
+   ms ++ map (fun n => (nd_room t, n_ent n, day (n_mdate n))) (filter hit (nodes s))
+      ++ [(nd_room t, nd_ent t, day (nd_date t)); (nd_room t, nd_ent t, day (nd_mdate t))]).
 (* EdgeDeletionEntry::delete_all *)
 Definition sdel_edge1 (acc : state * list lkey) (t : edel) : state * list lkey :=
   let '(s, ms) := acc in
@@ -290,16 +299,18 @@ Definition exec_op (o : op) (s : state) : state * list lkey :=
           (* updated_nodes: the source row is re-dated and re-signed whether or not the edge exists *)
           let n' := {| n_id := src; n_room := n_room n; n_ent := ent; n_mdate := now s; n_sig := sig |} in
           let nodes' := replace_first (fun x => N.eqb (n_id x) src && N.eqb (n_ent x) ent) n' (nodes s) in
+          (* updated_nodes_previous + updated_nodes: the day the source row leaves and the day it enters *)
+          let upd_marks := room_mark (n_room n) (n_ent n) (n_mdate n) ++ room_mark (n_room n) ent (now s) in
           match find (edge_is src the_label dest) (edges s) with
           | Some e =>
               let edges' := filter (fun x => negb (edge_is src the_label dest x)) (edges s) in
               match n_room n with
               | Some r =>
                   let t := {| ed_room := r; ed_edge := e; ed_date := now s; ed_sig := esig |} in
-                  (set_tables s nodes' (ndels s) (put_edel t (edels s)) edges', [(r, e_ent e, day (now s))])
-              | None => (set_tables s nodes' (ndels s) (edels s) edges', [])
+                  (set_tables s nodes' (ndels s) (put_edel t (edels s)) edges', (r, e_ent e, day (now s)) :: upd_marks)
+              | None => (set_tables s nodes' (ndels s) (edels s) edges', upd_marks)
               end
-          | None => (set_tables s nodes' (ndels s) (edels s) (edges s), [])
+          | None => (set_tables s nodes' (ndels s) (edels s) (edges s), upd_marks)
           end
       end
   | SNodes room ns => fold_left (ingest1 room) ns (s, [])
